@@ -330,7 +330,28 @@ func (ab actionsBuilder) prepareProcessorActions(oldConfig, newConfig config.Pro
 		return nil
 	}
 
-	// the processor changed, and all parts of a processor are updateable
+	if oldConfig.Condition != newConfig.Condition {
+		// the condition is not part of processor.Config, the processor service
+		// has no way to update it on an existing instance (Update and
+		// UpdateWhileRunning only take the plugin and the config), so an update
+		// action would silently keep the old condition; recreate the processor
+		// instead, the same way a connector with a changed immutable field is
+		// recreated
+		return []action{
+			deleteProcessorAction{
+				cfg:              oldConfig,
+				parent:           parent,
+				processorService: ab.processorService,
+			},
+			createProcessorAction{
+				cfg:              newConfig,
+				parent:           parent,
+				processorService: ab.processorService,
+			},
+		}
+	}
+
+	// the processor changed, and all other parts of a processor are updateable
 	return []action{updateProcessorAction{
 		oldConfig:        oldConfig,
 		newConfig:        newConfig,
